@@ -5,6 +5,7 @@ from .. import gen, pkg
 from ..oracles import canon_solution, dtl_optimum, dtl_profiles
 from ..plain import INF, Instance
 from ..runner import Result, Violation
+from ..solver_common import leaf_move, set_leaf_species_inplace
 
 ID = "C01"
 LEVEL = "exploration"
@@ -27,7 +28,7 @@ RULE = (
     "every valid species mapping on parent chains, recount by the documented event model. "
     "Checked for reconcile_thl and reconcile_exhaustive (policies ALL and ANY): no exception, "
     "non-empty result, every output valid, package cost == independent recount == brute-force "
-    "minimum, also when the same input object is solved again after its costs were changed in place; generate_all == set of valid mappings, each exactly once, and the package cost of (up to 300 evenly spaced of) them == recount.  Non-trivial: object "
+    "minimum, also when the same input object is solved again after its costs were changed in place and after one of its leaves was moved to another species in place; generate_all == set of valid mappings, each exactly once, and the package cost of (up to 300 evenly spaced of) them == recount.  Non-trivial: object "
     "tree >= 3 leaves, species tree >= 2 leaves and some optimal reconciliation contains a "
     "duplication, transfer or loss; distinct by SHA-1 of the canonical JSON case."
 )
@@ -147,6 +148,25 @@ def check(case):
                     raise Violation(f"{algo}.{policy}.after-costs-changed-in-place", observed={"recount": got, "package": pkg.pkg_cost(out)},
                                     expected=opt2, extra={"first_costs": inst.c, "second_costs": c2})
     _set_costs_inplace(inp, inst.c)
+    # ... and after one leaf was moved to another species in place (same tree objects, another leaf assignment)
+    mv = leaf_move(case, inst) if case.get("_second", True) else None
+    if mv is not None:
+        leaf, target, moved = mv
+        inst3 = Instance(moved)
+        opt3, _s3, _n3 = dtl_optimum(inst3, dtl_profiles(inst3))
+        set_leaf_species_inplace(inp, leaf, target)
+        for algo in ("thl", "exh"):
+            for policy in ("ALL", "ANY"):
+                outs = pkg.run_algo(algo, inp, policy)
+                if not outs:
+                    raise Violation(f"{algo}.{policy}.after-leaf-moved-in-place.empty", observed=0, expected=">=1 solution")
+                for out in outs:
+                    m = pkg.mapping_names(out)
+                    got = inst3.rec_cost(m) if inst3.mapping_valid(m) is None else None
+                    if got != opt3 or pkg.pkg_cost(out) != opt3:
+                        raise Violation(f"{algo}.{policy}.after-leaf-moved-in-place", observed={"recount": got, "package": pkg.pkg_cost(out), "mapping": m},
+                                        expected=opt3, extra={"leaf": leaf, "moved_to": target})
+        set_leaf_species_inplace(inp, leaf, inst.los[leaf])
     all_outputs = pkg.guarded(lambda: list(pkg.generate_all(inp)))
     gen_all = Counter(pkg.canon_output(o, labelled=False) for o in all_outputs)
     # the exhaustive solver ranks these with the package evaluator: recount an evenly spaced sample of them
